@@ -2,7 +2,8 @@
    A Node* is a PATH from the root into the hand model's tree value (nullptr = None): GetChild appends the child index, GetParent
    drops the last one, GetChildIndex(child) is the child's last index, GetCount / IsLeaf read the node at the path.  An iterator value
    is (path, item index) - exactly the hand model's `iter`.  pvFindFirst(node, itemPred) is the GENERATED in-node search
-   (Gen_FindFirst).  Statements the interpreter does not know make the run fail (RErr), they are never skipped. *)
+   (Gen_FindFirst).  Statements the interpreter does not know make the run fail (RErr), they are never skipped; MOMO_ASSERT / MOMO_CHECK are
+   obligations: a false condition ends the run with RStuck. *)
 From Coq Require Import String List ZArith Bool Lia Arith.
 From MomoCommon Require Import GenPrelude.
 From C02 Require Import ProtoSyntaxC02 Gen_FindFirst BTreeModel BTreeSearchGen.
@@ -19,7 +20,7 @@ Inductive value :=
 Definition env := string -> option value.
 Definition set (e : env) (x : string) (v : value) : env := fun y => if String.eqb y x then Some v else e y.
 
-Inductive res := RNormal (e : env) | RBreak (e : env) | RReturn (v : value) (e : env) | RErr.
+Inductive res := RNormal (e : env) | RBreak (e : env) | RReturn (v : value) (e : env) | RStuck (* a MOMO_ASSERT / MOMO_CHECK obligation is violated *) | RErr.
 Definition ret_of (r : res) : option value := match r with RReturn v _ => Some v | _ => None end.
 
 Section Sem.
@@ -152,6 +153,11 @@ Fixpoint exec (fuel : nat) (e : env) (ss : list pstmt) {struct fuel} : res :=
                   | Some false => exec f e rest
                   | None => RErr
                   end
+              | None => RErr
+              end
+          | SAssert c =>
+              match eval e c with
+              | Some v => match truthy v with Some true => exec f e rest | Some false => RStuck | None => RErr end
               | None => RErr
               end
           | SBreak => RBreak e
